@@ -30,6 +30,8 @@ PROJECTS = {
     'dups_deep': [('dd', 'class Outer:\n    class Config:\n        level = 1\n        def validate(self): pass\n        class Inner:\n            x = 1\n'
                          'class Outer:\n    def other(self): pass\ndef f():\n    pass\nif True:\n    def f():\n        pass\n', False)],
     'dups_nested': [('dn', 'class C:\n    def m(self): pass\n    def m(self): pass\nclass C:\n    def z(self): pass\n', False)],
+    'mro_conflict': [('mc', 'class A: pass\nclass B(A): pass\nclass Order(A, B):\n    def m(self): pass\nclass P: pass\nclass Q: pass\n'
+                            'class PQ(P, Q): pass\nclass QP(Q, P): pass\nclass Clash(PQ, QP): pass\nclass Twice(B, P, B): pass\n', False)],
     'cycle': [('c', '', True), ('c.m1', 'from c.m2 import B\nclass A(B): pass\nclass Base1: pass\n', False),
               ('c.m2', 'from c.m1 import Base1\nclass B(Base1): pass\n', False)],
     'cycle_reexport': [('e', 'from e.m1 import A\n__all__ = ["A"]\n', True), ('e.m1', 'from e.m2 import B\nclass A(B): pass\n', False),
@@ -39,6 +41,13 @@ PROJECTS = {
     'page_names': [('pn', '', True), ('pn.a', 'class b:\n    class c: pass\n', False), ('pn.z', 'class Index: pass\nclass index: pass\n', False)],
     'zope': [('z', 'from zope.interface import Interface, implementer\nclass IFoo(Interface):\n    def m(): pass\n'
                    '@implementer(IFoo)\nclass Foo:\n    def m(self): pass\nclass Sub(Foo): pass\n', False)],
+    # interfaces created by calling an InterfaceClass subclass, implemented by classes and provided by a module
+    'zope_called': [('zc', '', True),
+                    ('zc.ifaces', 'from zope.interface import Interface\nfrom zope.interface.interface import InterfaceClass\n'
+                                  'class PluginInterfaceClass(InterfaceClass):\n    pass\nIPlugin = PluginInterfaceClass("IPlugin")\n'
+                                  'class IOther(Interface):\n    pass\n', False),
+                    ('zc.impl', 'from zope.interface import implementer, moduleProvides, classImplements\nfrom zc.ifaces import IPlugin, IOther\n'
+                                'moduleProvides(IPlugin)\n@implementer(IPlugin, IOther)\nclass P1:\n    pass\nclass P2:\n    pass\nclassImplements(P2, IPlugin)\n', False)],
 }
 
 
@@ -46,6 +55,8 @@ def _cases(tier, seed):
     for name in PROJECTS:
         yield {'project': name}
         yield {'project': name, 'reversed': True}
+    for argv in (['shop', 'solo.py'], ['solo.py', 'shop'], ['shop', 'solo.py', 'shop'], ['solo.py', 'solo.py', 'shop'], ['shop', 'shop']):
+        yield {'project': 'paths', 'argv': argv}
     rnd = random.Random(seed)
     for _ in range(20 if tier == 'quick' else 200):
         yield {'project': 'random', 'seed': rnd.randrange(10 ** 6)}
@@ -124,15 +135,24 @@ def check_model(system):
             for s in o.subclasses:
                 if o not in s.baseobjects:
                     fails.append({'observed': f'{s.fullName()} is listed as subclass of {key} without having it as base', 'required': 'exact inverse', 'class': 'subclass-extra'})
-            if len(o.subclasses) != len(set(map(id, o.subclasses))) and len(set(map(id, [b for b in o.baseobjects]))) == len(o.baseobjects):
-                fails.append({'observed': f'{key}.subclasses has repeats', 'required': 'exact inverse', 'class': 'subclass-dup'})
+            for s_ in {id(x): x for x in o.subclasses}.values():
+                # listed as often as the subclass names it as a base (class Twice(B, P, B) names B twice)
+                if sum(1 for x in o.subclasses if x is s_) != sum(1 for b in s_.baseobjects if b is o):
+                    fails.append({'observed': f'{key}.subclasses lists {s_.fullName()} {sum(1 for x in o.subclasses if x is s_)} times, '
+                                              f'it names {key} as base {sum(1 for b in s_.baseobjects if b is o)} times',
+                                  'required': 'exact inverse', 'class': 'subclass-dup'})
+        if isinstance(o, (model.Class, model.Module)):
             impl = getattr(o, 'implements_directly', None)
             if impl is not None:
-                for iname in getattr(o, 'allImplementedInterfaces', []):
+                for iname in impl:
                     io = system.allobjects.get(iname)
-                    if io is not None and hasattr(io, 'implementedby_directly') and iname in impl and o not in io.implementedby_directly:
+                    if io is not None and getattr(io, 'isinterface', False) and o not in (getattr(io, 'implementedby_directly', None) or []):
                         fails.append({'observed': f'{key} implements {iname} but is not in its implementedby list', 'required': "'implemented by' is the inverse of 'implements'",
                                       'class': 'implements'})
+            for other in getattr(o, 'implementedby_directly', None) or []:
+                if key not in (getattr(other, 'implements_directly', None) or []):
+                    fails.append({'observed': f'{other.fullName()} is listed as implementer of {key} without implementing it', 'required': 'exact inverse',
+                                  'class': 'implementedby-extra'})
     # whatever hangs below a registered object (superseded definitions included) is registered under its own qualified name
     for key, o in list(system.allobjects.items()):
         for c in o.contents.values():
@@ -184,7 +204,39 @@ def check_model(system):
     return fails
 
 
+def _check_paths(case):
+    """the same roots handed over as file system paths, some of them twice (pydoctor pkg mod.py pkg)"""
+    import contextlib, io, os, shutil, tempfile
+    from pathlib import Path
+    from pydoctor import model
+    d = tempfile.mkdtemp(prefix='c02.', dir='/var/tmp')
+    try:
+        files = {'shop/__init__.py': '"""Shop."""\n', 'shop/cart.py': 'class Cart:\n    def add(self): pass\n', 'shop/sub/__init__.py': '',
+                 'shop/sub/deep.py': 'from shop.cart import Cart\nclass Deep(Cart): pass\n', 'solo.py': 'import shop.cart\nclass S(shop.cart.Cart): pass\n'}
+        for rel, text in files.items():
+            p = os.path.join(d, rel)
+            os.makedirs(os.path.dirname(p), exist_ok=True)
+            with open(p, 'w') as f:
+                f.write(text)
+        system = model.System()
+        builder = system.systemBuilder(system)
+        with contextlib.redirect_stdout(io.StringIO()):
+            for arg in case['argv']:
+                builder.addModule(Path(d) / arg)
+            builder.buildModules()
+        names = [r.name for r in system.rootobjects]
+        fails = check_model(system)
+        if len(names) != len(set(names)):
+            fails.append({'observed': f'root objects {names}', 'required': 'every object is registered under exactly its current qualified name (one root per name)',
+                          'class': 'duplicate-root'})
+        return fails or None
+    finally:
+        shutil.rmtree(d, ignore_errors=True)
+
+
 def _check(case):
+    if case.get('project') == 'paths':
+        return _check_paths(case)
     mods = _random_project(case['seed']) if case['project'] == 'random' else list(PROJECTS[case['project']])
     if case.get('reversed'):
         head = [m for m in mods if m[2]]
